@@ -1,0 +1,31 @@
+//go:build verif
+
+// Contracts for the deductive verifier in /verif (gocv). Comment-only file. Keys and values are abstract (bytes: key).
+
+package kvrpc
+
+// Batching partitions the keys of one region: every key is appended to the current batch exactly once, in order; the
+// current batch is started afresh only in a round that has just flushed it, whole, into the result; what is flushed carries
+// the region id; at the end a non-empty current batch is flushed too.
+//@ func AppendKeyBatches
+//@   prop C11
+//@   bytes: key
+//@   requires limit >= 0
+//@   loop 1 invariant count: count == len(keys)
+//@   at call(append:batches) assert flushed: len(keys) > 0 && arg1[0].RegionID == regionID && arg1[0].Keys == keys
+//@   loop 1 step one: start == prev(start) + 1 && len(keys) >= 1 && keys[len(keys)-1] == groupKeys[prev(start)] &&
+//@       ((len(keys) == prev(len(keys)) + 1 && len(batches) == prev(len(batches))) || (len(keys) == 1 && len(batches) == prev(len(batches)) + 1))
+//@   loop 1 invariant order: forall j int :: 0 <= j && j < len(keys) ==> keys[j] == groupKeys[start - len(keys) + j]
+//@   loop 1 invariant bound: 0 <= start && len(keys) <= start && len(batches) >= old(len(batches))
+
+// AppendBatches additionally keeps keys, values and TTLs positionally aligned.
+//@ func AppendBatches
+//@   prop C11
+//@   bytes: key
+//@   requires limit > 0
+//@   loop 1 invariant size: size >= 0 && (len(keys) == 0 ==> size == 0)
+//@   at call(append:batches) assert flushed: len(keys) > 0 && arg1[0].RegionID == regionID && arg1[0].Keys == keys && arg1[0].Values == values && arg1[0].TTLs == ttls
+//@   loop 1 step one: start == prev(start) + 1 && len(keys) >= 1 && keys[len(keys)-1] == groupKeys[prev(start)] &&
+//@       values[len(values)-1] == keyToValue[string(groupKeys[prev(start)])] && ttls[len(ttls)-1] == keyToTTL[string(groupKeys[prev(start)])] &&
+//@       ((len(keys) == prev(len(keys)) + 1 && len(batches) == prev(len(batches))) || (len(keys) == 1 && len(batches) == prev(len(batches)) + 1))
+//@   loop 1 invariant aligned: len(keys) == len(values) && len(keys) == len(ttls)
